@@ -434,8 +434,13 @@ func (x *Exec) Run(lines []string) {
 				m.AfterBlock(x)
 			}
 		case "Q":
-			x.Out.Cmd(l, x.query(f))
+			ans := x.query(f)
+			x.Out.Cmd(l, ans)
 			x.Stats["query:"+f[1]]++
+			x.Stats["qres:"+strings.Join(strings.Split(ans, " ")[:min(3, len(strings.Split(ans, " ")))][:2], " ")]++
+			if ans == "Q panic" {
+				x.flagQueryPanic(f, l)
+			}
 		case "PAGE":
 			x.history = x.history[:len(x.history)-1]
 			x.pageWalk(f)
@@ -678,6 +683,27 @@ func (x *Exec) declGenesis(f []string) {
 	}
 	for _, d := range watchDenoms {
 		x.Out.Decl("ENV denom %s", toks(d))
+	}
+}
+
+// flagQueryPanic: a panicking query handler is a C17 violation.  The one shape that is SDK code (query.Paginate's
+// getIterator with reverse=true, a non-empty key and offset 0) is reported under its own clause (known finding K2).
+func (x *Exec) flagQueryPanic(f []string, line string) {
+	clause := "C17-query-panic"
+	var page []string
+	switch f[1] {
+	case "aol.Topics":
+		page = f[3:]
+	case "aol.Writers":
+		page = f[4:]
+	case "pnft.Denoms":
+		page = f[2:]
+	}
+	if len(page) == 5 && page[4] == "1" && page[0] != "nil" && page[0] != "-" && page[1] == "0" {
+		clause = "C17-query-panic-sdk-paginate"
+	}
+	if len(x.Findings) < 60 {
+		x.Findings = append(x.Findings, finding{Clause: clause, Detail: "query handler panicked (ABCI code 111222): " + strings.Join(f[:2], " ") + " pagination=" + strings.Join(page, ","), Cmd: strings.Join(append(append([]string{}, x.history...), line), "\n")})
 	}
 }
 
